@@ -132,6 +132,10 @@ def _debug_logging_on():
     root = logging.getLogger()
     root.setLevel(logging.DEBUG)
     root.addHandler(_FormatAndDrop())
+    # the same processes run with `-W error` for warnings attributed to the library's own modules (a deployment may): a
+    # deprecated call inside the library then raises instead of warning
+    import warnings
+    warnings.filterwarnings("error", module=r"webauthn(\..*)?$")
 
 
 def _worker(args):
@@ -141,7 +145,7 @@ def _worker(args):
             _debug_logging_on()
         out = fn(chunk, idx)
         if idx % 2 == 1 and hasattr(out, "count"):
-            out.count("process-state:logging-at-DEBUG")
+            out.count("process-state:logging-at-DEBUG+library-warnings-as-errors")
         return out
     except Exception:
         return {"error": traceback.format_exc()}
